@@ -142,6 +142,11 @@ FAMILIES = [
     [('min', 'max'), ('Min', 'Max'), ('MIN', 'MAX')],
     [('down', 'up'), ('Down', 'Up')],
 ]
+# families that exchange kinds of objects, not sides: a comparison does not flip with them
+KIND_FAMILIES = [
+    [('row', 'col'), ('Row', 'Col'), ('rows', 'cols'), ('Rows', 'Cols'), ('ROW', 'COL'), ('ROWS', 'COLS'), ('R', 'C'), ('r', 'c')],
+    [('ROW', 'COLUMN'), ('row', 'col'), ('Row', 'Col'), ('rows', 'cols'), ('Rows', 'Cols')],
+]
 MIRS = []
 for _fam in FAMILIES:
     _m = {}
@@ -149,6 +154,22 @@ for _fam in FAMILIES:
         _m[_a] = _b
         _m[_b] = _a
     MIRS.append(_m)
+SIDE_MIRS = list(MIRS)
+KIND_MIRS = []
+for _fam in KIND_FAMILIES:
+    _m = {}
+    for _a, _b in _fam:
+        _m[_a] = _b
+        _m[_b] = _a
+    KIND_MIRS.append(_m)
+
+
+def side_changed(p, q):
+    """is q the image of p under a family that exchanges sides (lower/upper, lhs/rhs, ...)?"""
+    if p == q:
+        return False
+    ps = pieces(p)
+    return any(''.join(m.get(x, x) for x in ps) == q for m in SIDE_MIRS)
 
 
 def pieces(t):
@@ -230,7 +251,7 @@ def mirror_alts(a, b):
         flipped = (ob[0] != oa[0])
         out = []
         for sub in subs:
-            changed = any(p != q for p, q in sub if not p.startswith('@'))
+            changed = any(side_changed(p, q) for p, q in sub if not p.startswith('@'))
             extra = []
             if strict:
                 extra.append(('@op:' + render(a)[:40], '@op!' + render(b)[:40]))
@@ -239,6 +260,10 @@ def mirror_alts(a, b):
                 extra.append(('@infcmp:' + render(a)[:40], '@infcmp!' + render(b)[:40]))
             out.append(extra + sub)
         return out
+    for x_, y_ in ((a, b), (b, a)):
+        if x_.k == 'UnaryOperator' and x_.o in ('!', 'pre!') and x_.c and not (y_.k == 'UnaryOperator' and y_.o in ('!', 'pre!')):
+            inner = mirror_alts(x_.kids[0], y_) if x_ is a else mirror_alts(y_, x_.kids[0])
+            return [[('@neg:' + render(a)[:40], '@neg!' + render(b)[:40])] + r_ for r_ in inner]
     if a.k != b.k or len(a.c) != len(b.c):
         return []
     if a.k in ('StringLiteral', 'CharacterLiteral'):
@@ -287,6 +312,9 @@ def renaming_defects(ren):
     out = []
     fwd = {}
     for p, q in ren:
+        if p.startswith('@neg:'):
+            out.append('`%s` / `%s`: one side tests the negation of what its counterpart tests' % (p[5:], q[5:]))
+            continue
         if p.startswith('@op:'):
             out.append('`%s` / `%s`: one comparison is strict where its counterpart is not' % (p[4:], q[4:]))
             continue
@@ -350,6 +378,8 @@ MIRROR_ASYMMETRIC = {
 }
 # mirror-named function pairs whose bodies are deliberately not mirror images: '<function>/<sibling>' -> reason
 PAIR_ASYMMETRIC = {
+    'SoPlexBase<double>::getBasisInverseRowRational/getBasisInverseColRational':
+        '`numRowsRational()` is the dimension of the basis matrix in both functions',
     'SPxFastRT<double>::maxDelta/minDelta': '`max` is the name of the step-length parameter (an upper limit for the step) in both functions',
     'SPxFastRT<double>::maxSelect/minSelect': '`max` is the name of the step-length parameter (an upper limit for the step) in both functions',
     'SPxFastRT<double>::minSelect/maxSelect':
@@ -634,12 +664,12 @@ def _scan(fb):
         isctl = f.name.startswith('verif_ctl::')
         if not (f.name.startswith('soplex::') or isctl) or not f.nodes or f.body is None or f.u in dead:
             continue
-        for m in MIRS:
+        for m in MIRS + KIND_MIRS:
             gname = ''.join(m.get(p_, p_) for p_ in pieces(f.short or ''))
             if gname == f.short:
                 continue
             full = f.name[:len(f.name) - len(f.short)] + gname
-            gs = [g for g in fb.find(full) if [t for _, t in g.params] == [t for _, t in f.params] and g.body is not None and g.const == f.const]
+            gs = [g for g in fb.find(full) if [''.join(m.get(p_, p_) for p_ in pieces(t)) for _, t in g.params] == [t for _, t in f.params] and g.body is not None and g.const == f.const]
             if len(gs) != 1 or (gs[0].u, f.u) in seen7 or (f.u, gs[0].u) in seen7:
                 continue
             g = gs[0]
